@@ -28,7 +28,7 @@ func newPS(k *mon.Case, std bool) (*poolsim.PS, error) {
 	if r.Chance(1, 4) {
 		mp.MinRelayTxFee = btcutil.Amount([]int64{0, 500, 5000}[r.Intn(3)])
 	}
-	ps, err := poolsim.New(k, g, node.Config{UtxoCacheMaxSize: []uint64{0, 1 << 14, 1 << 30}[r.Intn(3)]}, mp, node.DefaultMinePolicy())
+	ps, err := poolsim.New(k, g, node.Config{UtxoCacheMaxSize: []uint64{0, 1 << 14, 1 << 25}[r.Intn(3)]}, mp, node.DefaultMinePolicy())
 	if err != nil {
 		return nil, err
 	}
